@@ -18,11 +18,31 @@ type genBumpSpec struct {
 	isMut   func(st *ssa.Store) (bool, string)
 	isBump  func(st *ssa.Store) bool
 	inScope func(f *ssa.Function) bool
+	// isBumpAddr (optional): the address is the generation counter's (for stores made through it by a counter type's method)
+	isBumpAddr func(addr ssa.Value) bool
 }
 
 func runGenBump(c *Ctx, r *R, sp genBumpSpec) {
 	pf := &PF{N: 4, InScope: sp.inScope}
 	pf.Instr = func(fn *ssa.Function, in ssa.Instruction, q int) (StateSet, bool) {
+		if call, isCall := in.(*ssa.Call); isCall && len(call.Call.Args) > 0 {
+			// d.gen.bump(): a method of a small counter type that is handed the field's address and stores through it is a
+			// store to that field
+			if fa, isFA := call.Call.Args[0].(*ssa.FieldAddr); isFA {
+				if cal := staticCallee(&call.Call); cal != nil && storesThroughParam0(cal) {
+					for _, b := range cal.Blocks {
+						for _, hin := range b.Instrs {
+							if hst, ok := hin.(*ssa.Store); ok && hst.Addr == ssa.Value(cal.Params[0]) {
+								// judge the helper's store as a store to the field it was handed
+								if sp.isBumpAddr != nil && sp.isBumpAddr(fa) {
+									return ss(q | 2), true
+								}
+							}
+						}
+					}
+				}
+			}
+		}
 		st, ok := in.(*ssa.Store)
 		if !ok {
 			return 0, false
@@ -127,6 +147,10 @@ func init() {
 							base, f, ok := storedField(st.Addr)
 							return ok && f == "gen" && isNamedType(base.Type(), "container/deque", "Deque")
 						},
+						isBumpAddr: func(addr ssa.Value) bool {
+							base, f, ok := storedField(addr)
+							return ok && f == "gen" && isNamedType(base.Type(), "container/deque", "Deque")
+						},
 						inScope: func(f *ssa.Function) bool { return f.Pkg == dq },
 					})
 				}},
@@ -187,6 +211,19 @@ func genFieldsOf(nextFn *ssa.Function, contPkg, contType string) (contF, iterF s
 		return fieldName(fa.X.Type(), fa.Field), isNamedType(fa.X.Type(), contPkg, contType), true
 	}
 	for _, di := range deepInstrs(nextFn, 2) {
+		// iter.d.gen.mustBe(iter.gen): a helper that panics unless its two operands are equal, handed the two counters
+		if call, isCall := di.in.(*ssa.Call); isCall && len(di.calls) == 0 {
+			if i, j, ok := panicsUnlessEqual(staticCallee(&call.Call)); ok && i < len(call.Call.Args) && j < len(call.Call.Args) {
+				fx, cx, okx := side(call.Call.Args[i])
+				fy, cy, oky := side(call.Call.Args[j])
+				if okx && oky && cx != cy {
+					if cx {
+						return fx, fy
+					}
+					return fy, fx
+				}
+			}
+		}
 		bo, ok := di.in.(*ssa.BinOp)
 		if !ok || (bo.Op != token.EQL && bo.Op != token.NEQ) {
 			continue
@@ -265,6 +302,16 @@ func ruleC15CheckFirst(c *Ctx, r *R) {
 			return 0, false
 		}
 		pf.Instr = func(f *ssa.Function, in ssa.Instruction, q int) (StateSet, bool) {
+			// the comparison made by a helper that panics unless the two counters are equal: past the call they are
+			if call, ok := in.(*ssa.Call); ok {
+				if i, j, okp := panicsUnlessEqual(staticCallee(&call.Call)); okp && i < len(call.Call.Args) && j < len(call.Call.Args) {
+					xi, xok := isGenLoad(call.Call.Args[i])
+					yi, yok := isGenLoad(call.Call.Args[j])
+					if xok && yok && xi != yi {
+						return ss(1), true
+					}
+				}
+			}
 			// iter.gen = iter.X.gen : fresh snapshot
 			if st, ok := in.(*ssa.Store); ok {
 				if _, fld, ok := storedField(st.Addr); ok && fld == iterGen {
@@ -706,4 +753,63 @@ func fieldOwnerType(addr ssa.Value) types.Type {
 		}
 	}
 	return nil
+}
+
+// storesThroughParam0: cal is a small function of the module all of whose stores go through its first (pointer) parameter
+// (func (g *generation) bump() { *g++ }).
+func storesThroughParam0(cal *ssa.Function) bool {
+	if cal == nil || cal.Blocks == nil || len(cal.Params) == 0 || curCtx == nil || !curCtx.inModule(cal) {
+		return false
+	}
+	if _, isPtr := cal.Params[0].Type().Underlying().(*types.Pointer); !isPtr {
+		return false
+	}
+	n, all := 0, true
+	instrs(cal, func(_ *ssa.BasicBlock, _ int, in ssa.Instruction) {
+		if st, ok := in.(*ssa.Store); ok {
+			n++
+			if st.Addr != ssa.Value(cal.Params[0]) {
+				all = false
+			}
+		}
+	})
+	return n > 0 && all
+}
+
+// panicsUnlessEqual: cal's entry block compares two of its parameters; the branch on which they differ ends in a panic, the
+// other returns (func (g generation) mustBe(started generation) { if started != g { panic(...) } }): the two parameter indexes.
+func panicsUnlessEqual(cal *ssa.Function) (int, int, bool) {
+	if cal == nil || cal.Blocks == nil || len(cal.Params) < 2 || curCtx == nil || !curCtx.inModule(cal) {
+		return 0, 0, false
+	}
+	b := cal.Blocks[0]
+	iff, ok := b.Instrs[len(b.Instrs)-1].(*ssa.If)
+	if !ok {
+		return 0, 0, false
+	}
+	cf, ok := (guard{cond: iff.Cond, val: true}).asCmp()
+	if !ok || (cf.op != token.EQL && cf.op != token.NEQ) {
+		return 0, 0, false
+	}
+	px, okx := cf.x.(*ssa.Parameter)
+	py, oky := cf.y.(*ssa.Parameter)
+	if !okx || !oky || px.Parent() != cal || py.Parent() != cal {
+		return 0, 0, false
+	}
+	diffIdx := 0 // successor taken when the operands differ
+	if cf.op == token.EQL {
+		diffIdx = 1
+	}
+	endsInPanic := func(bb *ssa.BasicBlock) bool {
+		_, isP := bb.Instrs[len(bb.Instrs)-1].(*ssa.Panic)
+		return isP
+	}
+	endsInReturn := func(bb *ssa.BasicBlock) bool {
+		_, isR := bb.Instrs[len(bb.Instrs)-1].(*ssa.Return)
+		return isR
+	}
+	if !endsInPanic(b.Succs[diffIdx]) || !endsInReturn(b.Succs[1-diffIdx]) {
+		return 0, 0, false
+	}
+	return paramIndex(px), paramIndex(py), true
 }
